@@ -213,6 +213,8 @@ pub fn inject_case<S: HB>(cfg: &HistCfg, build: &[Op], op: &Op, class: usize, n:
     let (n_enc, alloc_fail) = (n, n >> 32);
     let n = n & 0xFFFF_FFFF;
     arm(class, if n == 0xFFFF_FFFF { u64::MAX } else { n });
+    // every other case: a user callback reached while the injected panic unwinds panics as well (see types::tick)
+    if (n + class as u64) % 2 == 0 { set_cascade(true); out.stats.count("c16_cases_with_cascade_armed"); }
     if alloc_fail > 0 { crate::ops::set_pending_alloc_fail(alloc_fail); }
     let o = apply(&mut caches, &mut cur, op, &mut held, base);
     let pending = fuse_pending();
